@@ -29,6 +29,7 @@ type HarnessSpec struct {
 	Track     bool   `json:"track"`   // ghost write tracking
 	Allocs    bool   `json:"allocs"`  // ghost allocation tracking
 	PanicObls bool   `json:"panicobls"` // list every implicit no-panic check of own code as an obligation
+	Eager     bool   `json:"eager"` // check feasibility at every branch (default: lazy forking)
 	KeepGeom  bool   `json:"keepgeom"` // do not merge byte windows of different concrete geometry
 	Params    map[string]int `json:"params"` // harness-visible bounds (ndParam)
 	Timeout   int    `json:"timeout_s"`
@@ -79,6 +80,7 @@ func newEngine(prog *ssa.Program, pkgs map[string]*ssa.Package, spec HarnessSpec
 	e.permuteMaps = spec.Permute
 	keepGeometry = spec.KeepGeom
 	e.panicObls = spec.PanicObls
+	e.lazyBranch = !spec.Eager && os.Getenv("GOSYM_EAGER") == ""
 	e.trackAllocs = spec.Allocs
 	e.params = spec.Params
 	e.registerIntrinsics()
